@@ -89,7 +89,13 @@ def gen_model(rng, idx):
         if rng.random() < 0.3:
             rhs = ["+", rhs, ["c", str(dyc())]]
         spec["equations"].append([["v", a], rhs])
-    if rng.random() < 0.5:
+    if rng.random() < 0.3:
+        # a negated alias of an input
+        tgt = rng.choice(inputs)
+        spec["algebraics"].append({"name": "neg_" + tgt})
+        spec["equations"].append([["v", "neg_" + tgt], ["neg", ["v", tgt]]])
+        spec["aliases"].append(["neg_" + tgt, tgt, -1])
+    elif rng.random() < 0.6:
         tgt = rng.choice(states + algs)
         spec["algebraics"].append({"name": "neg_" + tgt})
         spec["equations"].append([["v", "neg_" + tgt], ["neg", ["v", tgt]]])
@@ -207,6 +213,10 @@ def run_model(spec):
             for a, tgt, sign in spec["aliases"]:
                 p.set_var(tgt, 1.5)
                 setget.append([a, sign * 1.5, float(p.get_var(a))])
+                # ... and written through the alias, read through the variable
+                p.set_var(a, 2.5)
+                setget.append([tgt + " after set_var(%s)" % a, sign * 2.5, float(p.get_var(tgt))])
+                setget.append([a + " after set_var(%s)" % a, 2.5, float(p.get_var(a))])
         return {"obs": obs, "raised": raised, "exported": exported, "setget": setget}
     finally:
         shutil.rmtree(base, ignore_errors=True)
